@@ -86,6 +86,19 @@ type RecoverEvent struct {
 
 var cur atomic.Pointer[Run]
 
+// betweenRuns is true from the End of a run to the Begin of the next one. A goroutine that reaches simrt in that
+// window is a leftover of the run that ended: letting it fall through to the real operation would make it block in
+// ways synctest does not consider durable (sync.Mutex) and the bubble could never be torn down. It blocks for ever instead.
+var betweenRuns atomic.Bool
+
+func current() *Run {
+	r := cur.Load()
+	if r == nil && betweenRuns.Load() {
+		select {}
+	}
+	return r
+}
+
 // Current returns the active run, or nil.
 func Current() *Run { return cur.Load() }
 
@@ -104,6 +117,7 @@ func Begin() *Run {
 		SiteHits: map[string]int{},
 	}
 	r.Pools = newPoolSet(r)
+	betweenRuns.Store(false)
 	cur.Store(r)
 	return r
 }
@@ -111,6 +125,7 @@ func Begin() *Run {
 // End marks the run dead: any goroutine of it that reaches a park point afterwards blocks for ever.
 func (r *Run) End() {
 	r.dead.Store(true)
+	betweenRuns.Store(true)
 	cur.CompareAndSwap(r, nil)
 }
 
@@ -186,7 +201,7 @@ func (r *Run) Release(p ParkReq) {
 }
 
 func optional(kind Kind, site string, obj any) {
-	r := cur.Load()
+	r := current()
 	if r == nil || r.Mask[kind] {
 		return
 	}
@@ -194,7 +209,7 @@ func optional(kind Kind, site string, obj any) {
 }
 
 func mandatory(kind Kind, site string, obj any) {
-	r := cur.Load()
+	r := current()
 	if r == nil {
 		return
 	}
@@ -203,7 +218,7 @@ func mandatory(kind Kind, site string, obj any) {
 
 // Yield is an optional preemption point (before a select or a range over a channel).
 func Yield(site string) {
-	r := cur.Load()
+	r := current()
 	if r == nil {
 		return
 	}
@@ -229,7 +244,7 @@ func NetWoke(site string) { mandatory(KWoke, site, nil) }
 // Spawn draws the logical id of a goroutine about to be started at site by the caller.
 //go:norace
 func Spawn(site string) string {
-	r := cur.Load()
+	r := current()
 	if r == nil {
 		return ""
 	}
@@ -248,7 +263,7 @@ func GoStart(id string) { goStart(id, true) }
 
 //go:norace
 func goStart(id string, sys bool) {
-	r := cur.Load()
+	r := current()
 	if r == nil || id == "" {
 		return
 	}
@@ -269,7 +284,7 @@ func goStart(id string, sys bool) {
 // GoExit marks the calling goroutine as finished.
 //go:norace
 func GoExit() {
-	r := cur.Load()
+	r := current()
 	if r == nil {
 		return
 	}
@@ -308,7 +323,7 @@ func (r *Run) RegisterSelf(name string) {
 
 // TimerFunc wraps the callback of time.AfterFunc so that each firing is a named goroutine.
 func TimerFunc(f func(), site string) func() {
-	r := cur.Load()
+	r := current()
 	if r == nil {
 		return f
 	}
@@ -336,7 +351,7 @@ func TimerFunc(f func(), site string) func() {
 
 // Send replaces the statement `ch <- v`.
 func Send[T any](ch chan<- T, v T, site string) {
-	r := cur.Load()
+	r := current()
 	if r == nil {
 		ch <- v
 		return
@@ -362,7 +377,7 @@ func Recv[T any](ch <-chan T, site string) T {
 
 // Recv2 replaces `v, ok := <-ch`.
 func Recv2[T any](ch <-chan T, site string) (T, bool) {
-	r := cur.Load()
+	r := current()
 	if r == nil {
 		v, ok := <-ch
 		return v, ok
@@ -389,7 +404,7 @@ func Close[T any](ch chan T, site string) {
 
 // Lock replaces m.Lock() on a sync.Mutex.
 func Lock(m *sync.Mutex, site string) {
-	r := cur.Load()
+	r := current()
 	if r == nil {
 		m.Lock()
 		return
@@ -439,7 +454,7 @@ type rlock struct{ m *sync.RWMutex }
 
 // LockRW / UnlockRW / RLock / RUnlock replace the sync.RWMutex methods.
 func LockRW(m *sync.RWMutex, site string) {
-	r := cur.Load()
+	r := current()
 	if r == nil {
 		m.Lock()
 		return
@@ -453,7 +468,7 @@ func LockRW(m *sync.RWMutex, site string) {
 }
 func UnlockRW(m *sync.RWMutex, site string) { m.Unlock() }
 func RLock(m *sync.RWMutex, site string) {
-	r := cur.Load()
+	r := current()
 	if r == nil {
 		m.RLock()
 		return
@@ -482,7 +497,7 @@ func Recovered(v any, site string) any {
 	if v == nil {
 		return nil
 	}
-	r := cur.Load()
+	r := current()
 	if r == nil {
 		return v
 	}
@@ -518,7 +533,7 @@ func Polled(site string, arm int) { optional(KYield, site, nil) }
 
 // SelfName returns the logical name of the calling goroutine ("" outside a run or if unregistered).
 func SelfName() string {
-	r := cur.Load()
+	r := current()
 	if r == nil {
 		return ""
 	}
@@ -535,7 +550,7 @@ func SelfName() string {
 
 // At records where the calling goroutine is about to block (harness transport).
 func At(site string) {
-	if r := cur.Load(); r != nil {
+	if r := current(); r != nil {
 		r.selfQ().At = site
 	}
 }
@@ -554,7 +569,7 @@ var onceStates sync.Map // *sync.Once -> *onceSt (per process; a Once belongs to
 // OnceDo replaces o.Do(f): sync.Once blocks latecomers on an internal mutex, which is not a durable
 // block for synctest, so a latecomer parks here until the first caller is done.
 func OnceDo(o *sync.Once, f func(), site string) {
-	r := cur.Load()
+	r := current()
 	if r == nil {
 		o.Do(f)
 		return
